@@ -836,7 +836,7 @@ def distribution(cases):
 def run(ctx):
     vlib.regen(ctx, ("consts",))
     vlib.coq_hygiene(ctx)
-    vlib.coq_properties(ctx, "C13", extra_files=("Properties_C13_full.v", "Properties_C10_unique.v"))
+    vlib.coq_properties(ctx, "C13", extra_files=("Properties_C13_full.v", "Properties_C13_elim.v", "Properties_C10_unique.v"))
     # sparse KKT_FULL assembly: Gallina transcription of create_kkt_matrix / update_kkt_* / update_data vs the real code
     try:
         import kktfull_stage
@@ -844,6 +844,13 @@ def run(ctx):
     except Exception as e:   # a broken stage is a broken tie, not a silent skip
         import traceback
         ctx.ob("correspondence:kktfull-model", "correspondence", False, "stage failed: " + traceback.format_exc()[-800:])
+    # sparse KKT_ALL_ELIMINATED assembly (model complete, proofs partial: see Properties_C13_elim.v)
+    try:
+        import kktelim_stage
+        kktelim_stage.kkt_elim_model_stage(ctx)
+    except Exception as e:
+        import traceback
+        ctx.ob("correspondence:kktelim-model", "correspondence", False, "stage failed: " + traceback.format_exc()[-800:])
     R = Runner(ctx); R.build()
     stats = {}
     if getattr(ctx, "replay", None):
